@@ -258,9 +258,15 @@ macro_rules! cache_check {
         // accidentally evaluating arguments multiple times. Here we force eager evaluation.
         let start = $start;
 
+        #[cfg(feature = "verif")]
+        crate::verif_hooks::memo_enter();
+
         // Do the cache lookup.
         let cache_key = (Nonterminal::$nonterminal, start);
         if let Some(result) = $cache.get(&cache_key) {
+            #[cfg(feature = "verif")]
+            crate::verif_hooks::memo_hit();
+
             return result.clone();
         }
 
